@@ -22,4 +22,12 @@ CLAIMED = {
     "C07": {"text": "Kernel-checked: list queries are disjunctions at spec level (cred_is_disjunction, skep_list_spec, permutation/repetition invariance, variants_agree); all static solvers are run on lists of 1-3 arguments over several components, both entry points.",
             "note": _SOLVE_NOTE, "technique": "Lean 4 proof of the judge + differential conformance run"},
 }
+CLAIMED["C10"] = {
+    "text": "Kernel-checked, for every well-formed compact framework and every assignment: each encoder's CNF has exactly the intended sets as models (both inclusions) - aux_var CF/ADM/CO, exp CF/CO, hybrid CO for EVERY threshold (fold invariant over the lazily allocated disjunction variables, freshness and injectivity of the allocation), default stable; range variants (aux: r_a <-> range; exp/hybrid: r_a sound + exact-range model exists); layouts injective and disjoint; assignment_to_extension decodes exactly the denoted set. The Lean encoders are tied to the 9 public Rust constructors by clause-multiset / reserve / arg_to_lit / first_range_var / decode comparison on every run.",
+    "note": "Trusted: Lean kernel + {propext, Classical.choice, Quot.sound}; the correspondence run (generated compact frameworks incl. both sides of the hybrid threshold; the threshold constant itself is regenerated from the source into Crusta/Gen and the theorem holds for all thresholds); permutator::cart_prod modelled as cartesian product. Non-compact frameworks are out of scope as in the property text.",
+    "technique": "Lean 4 proofs of encoder exactness + clause-level differential correspondence"}
+CLAIMED["C12"] = {
+    "text": "Model of LabelSet/ArgumentSet/AAFramework with tombstones, stale row indexes and swap_remove mirrored; kernel-checked: a rejected update returns the unchanged state (err_unchanged). Every run compares ALL observers incl. iteration orders after every operation of random histories against the model, and the model state against an abstract set model (refinement check, executable).",
+    "note": "Trusted: Lean kernel; correspondence harness. PARTIAL at this commit: the store invariant and the refinement to the set model are checked by execution on every generated history, not yet proved by induction (planned: store_inv, store_refines).",
+    "technique": "Lean 4 model + differential correspondence on update histories; invariant proofs in progress"}
 NOT_APPLICABLE = {}
